@@ -16,7 +16,7 @@ import re._constants as sc
 from .. import rx
 from ..core import AnalysisError, Report
 from ..srcmodel import call_name, unparse
-from ..strflow import StrFlow
+from ..strflow import StrFlow, caller_bindings
 
 NEWLINE_REF = r'(?:\r\n|[\n\r\f])'
 WS_REF = rf'(?:[ \t]|{NEWLINE_REF})'
@@ -121,7 +121,7 @@ def run(ctx, report: Report) -> None:
                if (q.startswith('CSSParser.') or q.startswith('SpecialPseudoPattern.') or q in ('process_custom',))]
     for q, fn in targets:
         cls = q.split('.')[0] if '.' in q else None
-        flow = StrFlow(src, pmod, fn, cls)
+        flow = StrFlow(src, pmod, fn, cls, caller_bindings(src, pmod, fn, cls))
         fq = f'css_parser.{q}'
 
         def sink(expr, what, where_node, need_lower=False):
